@@ -97,14 +97,21 @@ class KThreading:
         return 1000 + (t.index if t is not None else 0)
 
 
+class ModelGap(BaseException):
+    """the code under analysis used an OS facility the kernel model does not cover: a harness limitation,
+    never a verdict about the property (propagates out of the scenario -> harness error, exit 3)"""
+
+
 class OFD:
     """open file description"""
-    __slots__ = ('inode', 'refs', 'pid')
+    __slots__ = ('inode', 'refs', 'pid', 'pos', 'flags')
 
-    def __init__(self, inode, pid):
+    def __init__(self, inode, pid, flags=0):
         self.inode = inode
         self.refs = 1
         self.pid = pid
+        self.pos = 0
+        self.flags = flags
 
 
 class Kernel:
@@ -118,6 +125,9 @@ class Kernel:
         self.calls = {'open': 0, 'flock': 0, 'unlock': 0, 'close': 0, 'unlink': 0}
         self.faults = {}       # (syscall, call index) -> errno
         self.log = []
+        self.data = {}         # inode -> bytes
+        self.mode = {}         # inode -> permission bits
+        self.dead = set()      # pids of processes that were killed / exited
 
     def _pid(self):
         t = CUR['t']
@@ -133,6 +143,7 @@ class Kernel:
         return [fd for fd, o in self.fds.items() if pid is None or o.pid == pid]
 
     def kill(self, pid):
+        self.dead.add(pid)
         for fd in [fd for fd, o in self.fds.items() if o.pid == pid]:
             self._close(fd)
 
@@ -143,20 +154,88 @@ class Kernel:
             del self.lock_holder[o.inode]
 
 
-class KOS:
-    O_RDWR = 2
-    O_CREAT = 64
-    O_TRUNC = 512
-    O_EXCL = 128
-    PathLike = str
+class _KPath:
+    """os.path: pure helpers come from the real module, existence checks ask the model"""
 
     def __init__(self, k):
         self.k = k
 
+    def exists(self, p):
+        return str(p) in self.k.paths
+    isfile = lexists = exists
+
+    def isdir(self, p):
+        return False
+
+    def getsize(self, p):
+        p = str(p)
+        if p not in self.k.paths:
+            raise FileNotFoundError(2, 'ENOENT', p)
+        return len(self.k.data.get(self.k.paths[p], b''))
+
+    def __getattr__(self, name):
+        import os.path as _p
+        if name in ('join', 'dirname', 'basename', 'abspath', 'normpath', 'splitext', 'split', 'expanduser', 'realpath', 'isabs', 'sep'):
+            return getattr(_p, name)
+        raise ModelGap('os.path.%s is not modelled' % name)
+
+
+class _Stat:
+    def __init__(self, ino, size, mode):
+        self.st_ino = ino
+        self.st_size = size
+        self.st_mode = 0o100000 | mode
+        self.st_nlink = 1
+        self.st_mtime = self.st_ctime = self.st_atime = 0
+        self.st_dev = 1
+        self.st_uid = self.st_gid = 0
+
+
+class KOS:
+    O_RDONLY = 0
+    O_WRONLY = 1
+    O_RDWR = 2
+    O_CREAT = 64
+    O_EXCL = 128
+    O_NOCTTY = 256
+    O_TRUNC = 512
+    O_APPEND = 1024
+    O_NONBLOCK = 2048
+    O_CLOEXEC = 524288
+    SEEK_SET, SEEK_CUR, SEEK_END = 0, 1, 2
+    PathLike = str
+    sep = '/'
+    name = 'posix'
+    linesep = '\n'
+    error = OSError
+
+    def __init__(self, k):
+        self.k = k
+        self.path = _KPath(k)
+
+    def __getattr__(self, name):
+        raise ModelGap('os.%s is not modelled' % name)
+
     def fspath(self, p):
         return str(p)
 
-    def open(self, path, flags, mode=0o777):
+    def fsencode(self, p):
+        return str(p).encode()
+
+    def getpid(self):
+        return 100 + self.k._pid()
+
+    def getppid(self):
+        return 99
+
+    def kill(self, pid, sig):
+        mp = pid - 100
+        if mp in self.k.dead or mp < 0:
+            raise ProcessLookupError(3, 'ESRCH')
+        if sig != 0:
+            raise ModelGap('os.kill with a real signal is not modelled')
+
+    def open(self, path, flags, mode=0o777, *a, **kw):
         k = self.k
         k._fault('open')
         path = str(path)
@@ -164,13 +243,23 @@ class KOS:
             if not flags & self.O_CREAT:
                 raise FileNotFoundError(2, 'ENOENT', path)
             k.paths[path] = k.next_inode
+            k.data[k.next_inode] = b''
+            k.mode[k.next_inode] = mode & 0o755
             k.next_inode += 1
         elif flags & self.O_EXCL and flags & self.O_CREAT:
             raise FileExistsError(17, 'EEXIST', path)
+        ino = k.paths[path]
+        if flags & self.O_TRUNC:
+            k.data[ino] = b''
         fd = k.next_fd
         k.next_fd += 1
-        k.fds[fd] = OFD(k.paths[path], k._pid())
+        k.fds[fd] = OFD(ino, k._pid(), flags)
         return fd
+
+    def _ofd(self, fd):
+        if fd not in self.k.fds:
+            raise OSError(9, 'EBADF')
+        return self.k.fds[fd]
 
     def close(self, fd):
         k = self.k
@@ -179,7 +268,87 @@ class KOS:
             raise OSError(9, 'EBADF')
         k._close(fd)
 
-    def unlink(self, path):
+    def read(self, fd, n):
+        o = self._ofd(fd)
+        d = self.k.data.get(o.inode, b'')[o.pos:o.pos + n]
+        o.pos += len(d)
+        return d
+
+    def write(self, fd, b):
+        o = self._ofd(fd)
+        cur = self.k.data.get(o.inode, b'')
+        if o.flags & self.O_APPEND:
+            o.pos = len(cur)
+        cur = cur[:o.pos].ljust(o.pos, b'\0') + bytes(b) + cur[o.pos + len(b):]
+        self.k.data[o.inode] = cur
+        o.pos += len(b)
+        return len(b)
+
+    def lseek(self, fd, pos, how=0):
+        o = self._ofd(fd)
+        size = len(self.k.data.get(o.inode, b''))
+        o.pos = pos if how == 0 else (o.pos + pos if how == 1 else size + pos)
+        return o.pos
+
+    def ftruncate(self, fd, n):
+        o = self._ofd(fd)
+        self.k.data[o.inode] = self.k.data.get(o.inode, b'')[:n].ljust(n, b'\0')
+
+    def truncate(self, path, n):
+        path = str(path)
+        if path not in self.k.paths:
+            raise FileNotFoundError(2, 'ENOENT', path)
+        ino = self.k.paths[path]
+        self.k.data[ino] = self.k.data.get(ino, b'')[:n].ljust(n, b'\0')
+
+    def fsync(self, fd):
+        self._ofd(fd)
+    fdatasync = fsync
+
+    def fstat(self, fd):
+        o = self._ofd(fd)
+        return _Stat(o.inode, len(self.k.data.get(o.inode, b'')), self.k.mode.get(o.inode, 0o644))
+
+    def stat(self, path, *a, **kw):
+        path = str(path)
+        if path not in self.k.paths:
+            raise FileNotFoundError(2, 'ENOENT', path)
+        ino = self.k.paths[path]
+        return _Stat(ino, len(self.k.data.get(ino, b'')), self.k.mode.get(ino, 0o644))
+    lstat = stat
+
+    def chmod(self, path, mode, *a, **kw):
+        path = str(path)
+        if path not in self.k.paths:
+            raise FileNotFoundError(2, 'ENOENT', path)
+        self.k.mode[self.k.paths[path]] = mode
+
+    def fchmod(self, fd, mode):
+        self.k.mode[self._ofd(fd).inode] = mode
+
+    def umask(self, m):
+        return 0o022
+
+    def utime(self, path, *a, **kw):
+        if str(path) not in self.k.paths:
+            raise FileNotFoundError(2, 'ENOENT', str(path))
+
+    def link(self, src, dst, *a, **kw):
+        src, dst = str(src), str(dst)
+        if src not in self.k.paths:
+            raise FileNotFoundError(2, 'ENOENT', src)
+        if dst in self.k.paths:
+            raise FileExistsError(17, 'EEXIST', dst)
+        self.k.paths[dst] = self.k.paths[src]
+
+    def rename(self, src, dst, *a, **kw):
+        src, dst = str(src), str(dst)
+        if src not in self.k.paths:
+            raise FileNotFoundError(2, 'ENOENT', src)
+        self.k.paths[dst] = self.k.paths.pop(src)
+    replace = rename
+
+    def unlink(self, path, *a, **kw):
         k = self.k
         k._fault('unlink')
         path = str(path)
@@ -188,13 +357,28 @@ class KOS:
         del k.paths[path]
     remove = unlink
 
-    def getpid(self):
-        return 100 + self.k._pid()
+    def makedirs(self, *a, **kw):
+        pass
+    mkdir = makedirs
 
-    class path:  # noqa: N801  (os.path subset)
-        @staticmethod
-        def exists(p):
-            return False
+    def listdir(self, p='.'):
+        return [x.rsplit('/', 1)[-1] for x in self.k.paths]
+
+    def dup(self, fd):
+        o = self._ofd(fd)
+        o.refs += 1
+        nfd = self.k.next_fd
+        self.k.next_fd += 1
+        self.k.fds[nfd] = o
+        return nfd
+
+    def set_inheritable(self, fd, v):
+        pass
+
+
+def model_open(path, *a, **kw):
+    """builtin open() inside the loaded module: only the kernel model's files exist (nothing under /proc etc.)"""
+    raise FileNotFoundError(2, 'ENOENT (not in the kernel model)', str(path))
 
 
 class KFcntl:
@@ -233,8 +417,8 @@ class KFcntl:
             await Tok('blocked', free)
         k.lock_holder[o.inode] = o
 
-    def lockf(self, *a):
-        raise NotImplementedError('lockf is not modelled')
+    def __getattr__(self, name):
+        raise ModelGap('fcntl.%s is not modelled' % name)
 
 
 class KTime:
